@@ -193,9 +193,28 @@ type ConcCase struct {
 	SetupErr string     `json:"setup_err,omitempty"`
 }
 
+// IdleCase: N sessions of ONE endpoint that are open and silent in both
+// directions, then one more session whose application and client each write
+// a tagged stream.  N is grown along the resource bounds found in the code
+// (channel capacities 1, 5, 10, 128) and beyond.
+type IdleProbe struct {
+	Idle   int     `json:"idle"` // open, silent sessions while the probe ran
+	A2C    ConcDir `json:"a2c"`
+	C2A    ConcDir `json:"c2a"`
+	Millis int     `json:"ms"`
+}
+
+type IdleCase struct {
+	Mode     string      `json:"mode"`
+	Probes   []IdleProbe `json:"probes"`
+	OpenErr  string      `json:"open_err,omitempty"` // an idle session could not be opened
+	SetupErr string      `json:"setup_err,omitempty"`
+}
+
 type Case struct {
 	I      int        `json:"i"`
 	Stream string     `json:"stream"`
+	Idle   *IdleCase  `json:"idle,omitempty"`
 	Conc   *ConcCase  `json:"conc,omitempty"`
 	Stage  *StageCase `json:"stage,omitempty"`
 	Write  *WriteCase `json:"write,omitempty"`
@@ -1103,6 +1122,138 @@ func runConc(r *hx.Rng, mode string, nconn, c2a, a2c int) *ConcCase {
 	return res
 }
 
+// ---- idle stream: many open, silent sessions, then an active one ----
+
+func runIdle(r *hx.Rng, mode string, levels []int) *IdleCase {
+	res := &IdleCase{Mode: mode, Probes: []IdleProbe{}}
+	const a2c, c2a = 256 << 10, 64 << 10
+	lookup := func(domain string) (*sniproxy.Dest, error) {
+		if domain == "idle.example" {
+			return &sniproxy.Dest{Name: "/ep0"}, nil
+		}
+		return nil, fmt.Errorf("bad domain %q", domain)
+	}
+	release := make(chan struct{}) // closed at the end: the idle applications go away
+	var mu sync.Mutex
+	appSide := map[int]ConcDir{}
+	ready := make(chan int, 1024)
+	handler := func(ep string, conn net.Conn) {
+		defer conn.Close()
+		br := bufio.NewReaderSize(conn, 4096)
+		conn.SetReadDeadline(time.Now().Add(30 * time.Second))
+		if _, err := e2e.ReadRecord(br); err != nil {
+			return
+		}
+		line, err := br.ReadString('\n')
+		var id int
+		var kind string
+		if _, e := fmt.Sscanf(line, "%s %d", &kind, &id); err != nil || e != nil {
+			return
+		}
+		conn.SetReadDeadline(time.Time{})
+		if kind == "IDLE" {
+			ready <- id
+			<-release // open and silent
+			return
+		}
+		conn.SetDeadline(time.Now().Add(20 * time.Second))
+		var wg sync.WaitGroup
+		wg.Add(1)
+		go func() {
+			defer wg.Done()
+			data := tagged('A', id, a2c)
+			splitWrite(conn, data, []int{32768})
+		}()
+		got := make([]byte, c2a)
+		n, rerr := io.ReadFull(br, got)
+		d := checkTagged('C', id, c2a, got[:n], rerr)
+		wg.Wait()
+		mu.Lock()
+		appSide[id] = d
+		mu.Unlock()
+		io.Copy(io.Discard, br)
+	}
+	w, err := e2e.NewWorld(mode, lookup, []string{"/ep0"}, handler)
+	if err != nil {
+		res.SetupErr = err.Error()
+		return res
+	}
+	hello := e2e.SynthHello("idle.example", true, 0)
+	var idle []net.Conn
+	defer func() {
+		close(release)
+		for _, c := range idle {
+			c.Close()
+		}
+		w.Close()
+	}()
+	for _, level := range levels {
+		for len(idle) < level {
+			conn, err := w.DialFront()
+			if err != nil {
+				res.OpenErr = fmt.Sprintf("idle session %d: %v", len(idle), err)
+				return res
+			}
+			id := 1000 + len(idle)
+			conn.Write(append(append([]byte{}, hello...), []byte(fmt.Sprintf("IDLE %d\n", id))...))
+			idle = append(idle, conn)
+			select {
+			case <-ready:
+			case <-time.After(15 * time.Second):
+				res.OpenErr = fmt.Sprintf("idle session %d of %d was not accepted by the application within 15 s", len(idle), level)
+				return res
+			}
+		}
+		// the probe: one active session while `level` sessions are open and silent
+		id := level % 200
+		t0 := time.Now()
+		p := IdleProbe{Idle: level}
+		conn, err := w.DialFront()
+		if err != nil {
+			p.A2C = ConcDir{Sent: a2c, FirstDiff: -1, PrefixOK: true, Err: "front-dial: " + err.Error()}
+			res.Probes = append(res.Probes, p)
+			return res
+		}
+		conn.SetDeadline(time.Now().Add(10 * time.Second))
+		conn.Write(append(append([]byte{}, hello...), []byte(fmt.Sprintf("ACTIVE %d\n", id))...))
+		var wg sync.WaitGroup
+		wg.Add(1)
+		go func() {
+			defer wg.Done()
+			splitWrite(conn, tagged('C', id, c2a), []int{32768})
+		}()
+		got := make([]byte, a2c)
+		n, rerr := io.ReadFull(conn, got)
+		p.A2C = checkTagged('A', id, a2c, got[:n], rerr)
+		wg.Wait()
+		conn.Close()
+		deadline := time.Now().Add(3 * time.Second)
+		for {
+			mu.Lock()
+			d, ok := appSide[id]
+			if ok {
+				delete(appSide, id)
+			}
+			mu.Unlock()
+			if ok {
+				p.C2A = d
+				break
+			}
+			if time.Now().After(deadline) {
+				p.C2A = ConcDir{Sent: c2a, FirstDiff: -1, PrefixOK: true, Err: "application side did not finish"}
+				break
+			}
+			time.Sleep(5 * time.Millisecond)
+		}
+		p.Millis = int(time.Since(t0) / time.Millisecond)
+		res.Probes = append(res.Probes, p)
+		if !p.A2C.Complete || !p.C2A.Complete {
+			return res // every further probe would wait for the same bound
+		}
+	}
+	return res
+}
+
 // ---- e2e stream ----
 
 type appPlan struct {
@@ -1449,6 +1600,10 @@ func plan(seed uint64, n, e2eN int, big, huge bool) []spec {
 	for i := 0; i < 10; i++ {
 		ss = append(ss, spec{stream: "stage", seed: r.U64(), a: 2})
 	}
+	// many open, silent sessions of one endpoint, then an active one
+	for _, mode := range e2e.Modes {
+		ss = append(ss, spec{stream: "idle", seed: r.U64(), mode: mode})
+	}
 	// several connections at once through one endpoint, tagged payloads both ways
 	for _, mode := range e2e.Modes {
 		ss = append(ss, spec{stream: "conc", seed: r.U64(), mode: mode, a: 256 << 10, b: 2 << 20})
@@ -1558,6 +1713,8 @@ func runSpec(i int, s spec) (c Case) {
 		c.Stage = runStage(r, s.a)
 	case "conc":
 		c.Conc = runConc(r, s.mode, 8, s.a, s.b)
+	case "idle":
+		c.Idle = runIdle(r, s.mode, []int{1, 4, 5, 6, 9, 10, 11, 63, 64, 65, 127, 128, 129, 130, 300})
 	case "e2e":
 		mw := worlds[s.mode]
 		if mw == nil {
